@@ -2,10 +2,11 @@
 # one-time, offline: build the native replay driver and warm the MIR dump dependency cache
 cd "$(dirname "$0")"
 export CARGO_NET_OFFLINE=true
+V=$PWD
 mkdir -p .build evidence
 cp /repo/Cargo.lock replay/Cargo.lock
 CARGO_TARGET_DIR=$PWD/.build/replay cargo build --offline --release --manifest-path replay/Cargo.toml 2>&1 | tail -2
 for c in tensor_compress tensor_chain tensor_store neumann_parser relational_engine graph_engine; do
-  (cd /repo && CARGO_TARGET_DIR=/verif/.build/mir cargo +nightly rustc --offline --lib -p $c -- -Zunpretty=mir -C debug-assertions=off -C overflow-checks=on >/dev/null 2>&1) || echo "warm $c failed"
+  (cd /repo && CARGO_TARGET_DIR=$V/.build/mir cargo +nightly rustc --offline --lib -p $c -- -Zunpretty=mir -C debug-assertions=off -C overflow-checks=on >/dev/null 2>&1) || echo "warm $c failed"
 done
 echo setup done
